@@ -122,7 +122,7 @@ def get_power_spectral_density_matrix(
 
         # normalize
         if mask.dtype == bool:
-            mask = np.asfarray(mask)
+            mask = np.asarray(mask, dtype=np.float64)
 
         if normalize:
             mask /= np.maximum(
